@@ -278,16 +278,17 @@ func c05BeginReleases(c *Ctx) {
 	// (b) Sync
 	{
 		name := core.FuncName(sync)
+		// a callee that drops the snapshot on every path, itself or through a helper of its own
+		// (EndReadOnly -> forgetSnapshot)
 		dropsSnapshot := func(f *ssa.Function) bool {
-			if f == nil {
-				return false
-			}
-			for _, st := range an.StoresToField(f, txStart) {
-				if an.IsNilConst(st.Val) {
-					return true
+			return alwaysDoes(c, f, func(in ssa.Instruction) bool {
+				st, ok := in.(*ssa.Store)
+				if !ok || !an.IsNilConst(st.Val) {
+					return false
 				}
-			}
-			return false
+				fa, ok := st.Addr.(*ssa.FieldAddr)
+				return ok && an.FieldVar(fa.X.Type(), fa.Field) == txStart
+			}, 0)
 		}
 		h := an.THooks{Instr: func(in ssa.Instruction, s an.TState) an.TState {
 			if cl, ok := in.(ssa.CallInstruction); ok {
